@@ -1,6 +1,8 @@
 package props
 
 import (
+	"io"
+	"bufio"
 	"bytes"
 	"encoding/hex"
 	"fmt"
@@ -288,7 +290,6 @@ func namesOf(t *gen.Table) (refNames, logNames []string) {
 // compareQueries runs the queries through both implementations and compares.
 func (d *cdriver) compareQueries(what string, mode string, target string, extra []string, tab reftable.Table, qs []*c15query, caseInfo map[string]interface{}, idHash string) bool {
 	c := d.c
-	r := c.Rep
 	qf := filepath.Join(c.Work, fmt.Sprintf("c15-%d.q", c.Shard))
 	var sb strings.Builder
 	for _, q := range qs {
@@ -298,6 +299,12 @@ func (d *cdriver) compareQueries(what string, mode string, target string, extra 
 	defer os.Remove(qf)
 	args := append([]string{mode, target, qf}, extra...)
 	out, san, err := d.run(args...)
+	return d.judgeAnswers(what, out, san, err, tab, qs, caseInfo, idHash)
+}
+
+// judgeAnswers compares the C side's answers (driver output) with Go's.
+func (d *cdriver) judgeAnswers(what string, out, san string, err error, tab reftable.Table, qs []*c15query, caseInfo map[string]interface{}, idHash string) bool {
+	r := d.c.Rep
 	if san != "" {
 		r.Violate([]string{"C15"}, what+"|c-sanitizer|"+sanSig(san), "the C implementation has a sanitizer report / crashed on input produced by the other implementation:\n"+san, caseInfo)
 		return false
@@ -554,6 +561,7 @@ func (d *cdriver) stackCase(idx int) {
 	if okc {
 		r.Count("stacks_go_to_c", 1)
 		d.cExtends(rng, dir, gcfg, cfg, model, nextUI, opts, qs, info, idh)
+		d.longLivedCHandle(rng, idx, gcfg, cfg, opts, qs, info, idh)
 	}
 
 	// (d) C writes a stack (stack_add + its auto-compaction), Go reads and extends it
@@ -724,6 +732,206 @@ func (d *cdriver) cExtends(rng *gen.Rng, dir string, gcfg gen.Cfg, cfg reftable.
 		r.Nontrivial(rep.Hash("c15", "cext", idh, what))
 	}
 	stx.SafeClose(st)
+}
+
+// cSession is a long-lived C process holding ONE reftable_stack handle (driver command
+// stack-session): commands go in on stdin, every answer ends with a line ".".
+type cSession struct {
+	cmd  *exec.Cmd
+	in   io.WriteCloser
+	out  *bufio.Reader
+	errb bytes.Buffer
+	kill *time.Timer
+}
+
+func (d *cdriver) openSession(dir string, opts []string) (*cSession, error) {
+	s := &cSession{}
+	s.cmd = exec.Command(d.bin, append([]string{"stack-session", dir}, opts...)...)
+	s.cmd.Env = append(os.Environ(), "ASAN_OPTIONS=detect_leaks=0:abort_on_error=0:exitcode=99", "UBSAN_OPTIONS=print_stacktrace=1:halt_on_error=1:exitcode=98")
+	var err error
+	if s.in, err = s.cmd.StdinPipe(); err != nil {
+		return nil, err
+	}
+	op, err := s.cmd.StdoutPipe()
+	if err != nil {
+		return nil, err
+	}
+	s.out = bufio.NewReaderSize(op, 1<<20)
+	s.cmd.Stderr = &s.errb
+	if err := s.cmd.Start(); err != nil {
+		return nil, err
+	}
+	s.kill = time.AfterFunc(120*time.Second, func() { s.cmd.Process.Kill() })
+	if _, err := s.read(); err != nil {
+		s.close()
+		return nil, err
+	}
+	return s, nil
+}
+
+func (s *cSession) read() (string, error) {
+	var sb strings.Builder
+	for {
+		line, err := s.out.ReadString('\n')
+		if err != nil {
+			return sb.String(), fmt.Errorf("C session ended: %v", err)
+		}
+		if line == ".\n" {
+			return sb.String(), nil
+		}
+		sb.WriteString(line)
+	}
+}
+
+func (s *cSession) do(cmd string) (string, error) {
+	if _, err := io.WriteString(s.in, cmd+"\n"); err != nil {
+		return "", err
+	}
+	return s.read()
+}
+
+// close ends the session and returns a sanitizer report / crash description, if any.
+func (s *cSession) close() string {
+	io.WriteString(s.in, "quit\n")
+	s.in.Close()
+	err := s.cmd.Wait()
+	s.kill.Stop()
+	es := s.errb.String()
+	if strings.Contains(es, "AddressSanitizer") || strings.Contains(es, "runtime error:") || strings.Contains(es, "UndefinedBehaviorSanitizer") {
+		return trimTo(es, 3000)
+	}
+	if err != nil {
+		return fmt.Sprintf("driver died: %v\n%s", err, trimTo(es, 1500))
+	}
+	return ""
+}
+
+// longLivedCHandle: (f) a C process keeps one stack handle open while Go rewrites the
+// stack (adds with auto-compaction, full compactions - often leaving the NUMBER of tables
+// unchanged, within the same second); the C handle then reloads and must answer every
+// query like Go does on the new state, and a transaction added through it must land on
+// top of the current state, not of the one it opened.
+func (d *cdriver) longLivedCHandle(rng *gen.Rng, idx int, gcfg gen.Cfg, cfg reftable.Config, opts gen.TxnOpts, qs []*c15query, info map[string]interface{}, idh string) {
+	c := d.c
+	r := c.Rep
+	dir := c.TempDir(fmt.Sprintf("c15l-%d", idx))
+	defer os.RemoveAll(dir)
+	model := gen.NewModel(gcfg.HashSize(), gcfg.ExactLog)
+	st, err := stx.Open(dir, cfg)
+	if err != nil {
+		return
+	}
+	id := 400
+	goAdd := func(n int) bool {
+		for i := 0; i < n; i++ {
+			id++
+			t := gen.GenTxn(rng, id, model, opts)
+			ui, err := stx.Apply(st, t)
+			if err != nil {
+				r.Note("long-lived C handle case: Go Add failed: %v", err)
+				return false
+			}
+			model.Apply(t, ui)
+		}
+		return true
+	}
+	if !goAdd(2 + rng.Intn(3)) {
+		stx.SafeClose(st)
+		return
+	}
+	before := stx.Names(st)
+	sess, err := d.openSession(dir, cOpts(gcfg))
+	if err != nil {
+		stx.SafeClose(st)
+		r.Violate([]string{"C15"}, "c-session|cannot-open", "the C stack cannot open a stack written by Go: "+err.Error(), info)
+		return
+	}
+	finish := func() bool {
+		if san := sess.close(); san != "" {
+			r.Violate([]string{"C15"}, "c-session|c-sanitizer|"+sanSig(san), "the long-lived C handle has a sanitizer report / crashed:\n"+san, info)
+			return false
+		}
+		return true
+	}
+	// Go rewrites the stack under the C handle
+	var what []string
+	for k, n := 0, 1+rng.Intn(3); k < n; k++ {
+		switch rng.Intn(3) {
+		case 0:
+			st.CompactAll(nil)
+			what = append(what, "compactall")
+		default:
+			if !goAdd(1) {
+				stx.SafeClose(st)
+				finish()
+				return
+			}
+			what = append(what, "add")
+		}
+	}
+	after := stx.Names(st)
+	info2 := map[string]interface{}{}
+	for k, v := range info {
+		info2[k] = v
+	}
+	info2["go_rewrite_under_c_handle"] = strings.Join(what, ",")
+	info2["tables_before"], info2["tables_after"] = before, after
+	if len(before) == len(after) && strings.Join(before, " ") != strings.Join(after, " ") {
+		r.Count("c_handle_rewrites_keeping_table_count", 1)
+	}
+	qf := filepath.Join(c.Work, fmt.Sprintf("c15-sess-%d.q", c.Shard))
+	var sb strings.Builder
+	for _, q := range qs {
+		sb.WriteString(q.line + "\n")
+	}
+	os.WriteFile(qf, []byte(sb.String()), 0644)
+	defer os.Remove(qf)
+	out, err := sess.do("reload")
+	if err != nil || !strings.HasPrefix(out, "RELOADED 0") {
+		stx.SafeClose(st)
+		if finish() {
+			r.Violate([]string{"C15"}, "c-session|reload-failed", fmt.Sprintf("reload of the long-lived C handle after Go rewrote the stack (%v): %q %v", what, out, err), info2)
+		}
+		return
+	}
+	out, err = sess.do("query " + qf)
+	okq := d.judgeAnswers("c-long-lived-handle-after-go-rewrite", out, "", err, st.Merged(), qs, info2, idh+"/sess")
+	if okq {
+		// a transaction through the C handle lands on the current state
+		id++
+		t := gen.GenTxn(rng, id, model, opts)
+		ui := st.NextUpdateIndex()
+		refs, logs := t.Materialize(ui)
+		tf := filepath.Join(c.Work, fmt.Sprintf("c15-sess-%d.txt", c.Shard))
+		os.WriteFile(tf, []byte(fmt.Sprintf("T %d\n%s---\n", ui, xDump(refs, logs))), 0644)
+		defer os.Remove(tf)
+		out, err = sess.do("apply " + tf)
+		if err != nil || !strings.Contains(out, "OK") {
+			okq = false
+			stx.SafeClose(st)
+			if finish() {
+				r.Violate([]string{"C15"}, "c-session|apply-failed", fmt.Sprintf("a transaction through the reloaded C handle failed: %s %v", trimTo(out, 400), err), info2)
+			}
+			return
+		}
+		model.Apply(t, ui)
+	}
+	stx.SafeClose(st)
+	if !finish() || !okq {
+		return
+	}
+	r.Evaluations++
+	fd, _, err := stx.FreshView(dir, cfg)
+	if err != nil {
+		r.Violate([]string{"C15"}, "c-session|go-cannot-open|"+errClass(err), "Go cannot open the stack after the long-lived C handle added to it: "+err.Error(), info2)
+		return
+	}
+	if want := model.Dump(); fd != want {
+		r.Violate([]string{"C15"}, "c-session|view-differs", "after the long-lived C handle added a transaction the stack reads differently in Go: "+gen.DiffLines(want, fd), info2)
+		return
+	}
+	r.Count("c_long_lived_handle_cases", 1)
+	r.Nontrivial(rep.Hash("c15", "sess", idh))
 }
 
 var _ = strconv.Itoa
